@@ -5,7 +5,7 @@ import ast
 
 from vlib import loops, truthy
 from vlib.cfg import CFG
-from vlib.core import AnalysisError, Repo, Report, norm, own_nodes
+from vlib.core import AnalysisError, Repo, Report, canon, norm, own_nodes
 
 EXPLANATION = (
     "(a) the query algebra is immutable at evaluation time: in evaluate.py, evalutils.py, aggregates.py, update.py and the "
@@ -86,8 +86,7 @@ def run(repo: Repo, rep: Report) -> None:
                     site, what = n, ".%s() on %s" % (n.func.attr, norm(n.func.value))
                 if site is None:
                     continue
-                key = (q, norm(site))
-                why = SANCTIONED.get(key)
+                why = {(a, canon(b)): w for (a, b), w in SANCTIONED.items()}.get((q, canon(site)))
                 rep.ob("C15.a-algebra-immutable-at-eval", mod, q, site, why is not None,
                        "sanctioned (table): " + why if why else
                        "%s mutates the query algebra during evaluation: a prepared query evaluated again (or on another graph) no longer answers like a freshly parsed one" % what, node=site)
